@@ -32,7 +32,7 @@ def main():
         again = []
         for t in tasks:
             r = res.get(t.group)
-            if r is not None and r.get('status') in ('unknown', 'timeout') and not getattr(t, '_retried', False):
+            if r is not None and r.get('status') in ('unknown', 'timeout') and not getattr(t, '_retried', False) and not (t.meta or {}).get('noretry'):
                 kw = dict(t.kwargs)
                 for k in ('timeout', 'budget_s'):
                     if isinstance(kw.get(k), (int, float)):
